@@ -32,6 +32,9 @@ def lstripChar (ch : Char) : Str → Str
 def rstripChar (ch : Char) (s : Str) : Str := (lstripChar ch s.reverse).reverse
 def stripChar (ch : Char) (s : Str) : Str := rstripChar ch (lstripChar ch s)
 
+/-- `s.rstrip(cs)` for a set of characters. -/
+def rstripSet (cs : List Char) (s : Str) : Str := (s.reverse.dropWhile (fun c => cs.contains c)).reverse
+
 /-- number of leading characters equal to `ch`. -/
 def countLeading (ch : Char) : Str → Nat
   | [] => 0
